@@ -35,17 +35,52 @@ class Ctx:
     # -- scene ----------------------------------------------------------
     def _build(self):
         rng = self.rng
-        ny, nx = int(rng.integers(36, 47)), int(rng.integers(36, 47))
+        # ---- generic axes, drawn independently of the (representation, condition) cell; about half plain ----
+        self.axes = {}
+        self.scale = 1.0
+        if rng.random() < 0.45:                                   # (i) magnitude
+            if self.rep == 'int':
+                self.scale = float(2.0 ** int(rng.integers(0, 7)))
+            elif rng.random() < 0.5:
+                self.scale = float(2.0 ** int(rng.integers(-60, 41)))
+            else:
+                self.scale = float(10.0 ** int(rng.integers(-20, 11)))
+            self.axes['magnitude'] = 1
+            if self.scale < 1e-6 or self.scale > 1e6:
+                self.axes['magnitude_extreme'] = 1
+        self.altunit = bool(self.rep == 'quantity' and rng.random() < 0.4)   # (ii) equivalent but different units
+        if self.altunit:
+            self.axes['alt_unit_secondary_inputs'] = 1
+        self.qtable = bool(rng.random() < 0.35)                   # (ii) Table vs QTable independent of the rep
+        elong = rng.random() < 0.3                                # (iv) shape
+        if elong:
+            short, long_ = int(rng.integers(26, 33)), int(rng.integers(58, 81))
+            ny, nx = (short, long_) if rng.random() < 0.5 else (long_, short)
+            self.axes['elongated'] = 1
+        else:
+            ny, nx = int(rng.integers(36, 47)), int(rng.integers(36, 47))
+            if abs(nx - ny) >= 2:
+                self.axes['non_square'] = 1
         self.shape = (ny, nx)
         n = int(rng.integers(3, 6))
-        # jittered grid keeps stars >= ~9 px apart and >= 8 px from the edges
-        cells = [(i, j) for i in range(3) for j in range(3)]
-        rng.shuffle(cells)
         pos = []
-        for (i, j) in cells[:n]:
-            cx = 8 + (nx - 16) * (j + 0.5) / 3 + rng.uniform(-1.5, 1.5)
-            cy = 8 + (ny - 16) * (i + 0.5) / 3 + rng.uniform(-1.5, 1.5)
-            pos.append((cx, cy))
+        if elong:
+            # one row of stars along the long axis, >= ~9 px apart, >= 8 px from the edges
+            L = max(ny, nx)
+            for j in range(n):
+                a = 8 + (L - 16) * (j + 0.5) / n + rng.uniform(-1.0, 1.0)
+                b = min(ny, nx) / 2.0 + rng.uniform(-2.0, 2.0)
+                pos.append((a, b) if nx > ny else (b, a))
+            order = rng.permutation(n)
+            pos = [pos[i] for i in order]
+        else:
+            # jittered grid keeps stars >= ~9 px apart and >= 8 px from the edges
+            cells = [(i, j) for i in range(3) for j in range(3)]
+            rng.shuffle(cells)
+            for (i, j) in cells[:n]:
+                cx = 8 + (nx - 16) * (j + 0.5) / 3 + rng.uniform(-1.5, 1.5)
+                cy = 8 + (ny - 16) * (i + 0.5) / 3 + rng.uniform(-1.5, 1.5)
+                pos.append((cx, cy))
         self.xy = np.array(pos)                       # (n, 2) x, y
         self.fwhm = float(rng.uniform(2.6, 3.4))
         sig = self.fwhm / 2.3548200450309493
@@ -102,6 +137,10 @@ class Ctx:
                 if mask is not None:
                     mask[r, c] = False
             self.nonfinite_unmasked = int(np.sum(~np.isfinite(img) & (~mask if mask is not None else True)))
+        if self.scale != 1.0:
+            img = img * self.scale
+            err = err * self.scale
+            self.amp = self.amp * self.scale
         self.raw = img
         self.raw_err = err
         self.raw_mask = mask
@@ -166,6 +205,11 @@ class Ctx:
             big = np.full((2 * ny, 2 * nx) + a.shape[2:], 7, dtype=a.dtype)
             big[::2, ::2] = a
             return big[::2, ::2]
+        if a.ndim == 2 and rng.random() < 0.5:
+            big = np.full((nx + 3, ny + 2), 7, dtype=a.dtype)      # transposed view of a larger array
+            big[1:1 + nx, 2:2 + ny] = a.T
+            self.axes['transposed_view'] = 1
+            return big[1:1 + nx, 2:2 + ny].T
         big = np.full((ny + 2, nx) + a.shape[2:], 7, dtype=a.dtype)
         big[1:1 + ny] = a[::-1]
         return big[1:1 + ny][::-1]
@@ -189,7 +233,11 @@ class Ctx:
             else:
                 out = a
         elif rep == 'quantity':
-            out = a * self.unit if unit else a
+            if unit and secondary and getattr(self, 'altunit', False):
+                import astropy.units as u
+                out = (a * 1e3) * u.mJy             # same quantity, equivalent but different unit
+            else:
+                out = a * self.unit if unit else a
         elif rep == 'view':
             out = self._view(a)
         elif rep == 'fortran':
@@ -201,7 +249,11 @@ class Ctx:
             else:
                 out = a
         elif rep == 'float32':
-            out = a.astype(np.float32)
+            # (iii) narrow or non-native dtypes
+            dt = [np.float32, np.float32, '>f8', '>f4'][int(self.rng.integers(0, 4))]
+            out = a.astype(dt)
+            if dt not in (np.float32,):
+                self.axes['big_endian'] = 1
         else:
             raise ValueError(rep)
         self._ro(out)
@@ -235,6 +287,12 @@ class Ctx:
         k = force or kinds[int(self.rng.integers(0, len(kinds)))]
         if k == 'plain':
             return value
+        if k == 'npscalar':
+            self.axes['numpy_scalar_form'] = 1
+            return np.float64(value) if isinstance(value, float) else np.int64(value)
+        if k == 'zero_d':
+            self.axes['zero_d_array_form'] = 1
+            return self.own(np.array(value), name + '_0d')
         if k == 'list':
             v = np.asarray(value).tolist()
             if not isinstance(v, list):
@@ -249,9 +307,19 @@ class Ctx:
             return self.own(big[1::2], name + '_iview')
         return self.own(a, name + '_int')
 
+    def s(self, x):
+        """Scale a value-like constant (threshold, background, local_bkg, peakmax ...) with the data magnitude."""
+        return x * self.scale
+
     def q(self, x):
-        """Attach the scene unit to a threshold/background-like value when the scene is a Quantity."""
-        return x * self.unit if self.unit is not None else x
+        """Attach the scene unit to a threshold/background-like value when the scene is a Quantity
+        (in the equivalent-but-different unit when that axis is drawn)."""
+        if self.unit is None:
+            return x
+        if self.altunit:
+            import astropy.units as u
+            return (x * 1e3) * u.mJy
+        return x * self.unit
 
     # -- calling --------------------------------------------------------
     def call(self, fn, *args, **kwargs):
@@ -311,11 +379,19 @@ class Ctx:
         x = self.xy[:, 0] + self.rng.uniform(-jitter, jitter, len(self.xy))
         y = self.xy[:, 1] + self.rng.uniform(-jitter, jitter, len(self.xy))
         flux = self.amp * 2 * np.pi * self.sigma ** 2
-        t = (QTable if self.unit is not None else Table)()
+        use_q = self.unit is not None or self.qtable
+        if use_q:
+            self.axes['qtable'] = 1
+        t = (QTable if use_q else Table)()
         t[names[0]] = x
         t[names[1]] = y
         if len(names) > 2:
-            t[names[2]] = flux * self.unit if self.unit is not None else flux
+            if self.unit is not None and self.altunit:
+                import astropy.units as u
+                t[names[2]] = (flux * 1e3) * u.mJy
+                self.axes['alt_unit_table_column'] = 1
+            else:
+                t[names[2]] = flux * self.unit if self.unit is not None else flux
         t.meta['origin'] = 'c10'
         for k, v in (extra or {}).items():
             t[k] = v
